@@ -65,21 +65,21 @@ CLAIMS["C18"] = {
 CLAIMS["C16"] = {
     "technique": "rapid-generated streams through the loss filter into a recording sink: equality / emptiness / subsequence oracle and a 6-sigma binomial bound",
     "engine": "rapid-models",
-    "text": "Generated-input search: chances {0,1,5,50,95,99,100,101,1000, negative} and uniform 0..100, streams of 0..2000 tagged chunks (40000 for the statistical cases) are pushed through NewLossFilter in front of a sink NIC; chance 0 must forward everything, chance >= 100 nothing, the output is always an in-order, duplicate-free, byte-identical subsequence with unchanged addresses, and on 40000 chunks the dropped count must lie within 6 sigma of N*p. An end-to-end variant attaches NewLossFilter(host) to a router through the public API and checks the same on what the socket behind it receives. Exploration plus a statistical test.",
+    "text": "Generated-input search: chances {0,1,5,50,95,99,100,101,1000, negative} and uniform 0..100, streams of 0..2000 tagged chunks (40000 for the statistical cases) are pushed through NewLossFilter in front of a sink NIC; chance 0 must forward everything, chance >= 100 nothing, the output is always an in-order, duplicate-free, byte-identical subsequence with unchanged addresses, and on 40000 chunks the dropped count must lie within 6 sigma of N*p. An end-to-end variant attaches NewLossFilter(host) to a router through the public API and checks the same on what the socket behind it receives. A long-stream unit pushes 16 million arrivals through one filter and applies the 6-sigma bound at every power-of-two stream length from 65536 on. Exploration plus statistical tests.",
     "note": "Trusted: in-package sink shim (shims/vnet); the statistical assertion has a false-alarm probability below 2e-9 per case.",
     "design_ref": "DESIGN.md §3 C16",
 }
 CLAIMS["C02"] = {
     "technique": "rapid-generated outbound/inbound/advance histories against an RFC 4787 mapping model on a virtual clock (external addresses learned, then constrained); 1:1 mode table; port-space scenario; end-to-end regression",
     "engine": "vclock",
-    "text": "Generated-input search on the translator itself (in-package shim) with time.Now redirected to a virtual clock: all 9 mapping x filtering behaviours, 3 lifetimes, 1..4 internal endpoints, 1..5 remotes, advances of {0,1/3,2/3,1-e,1,1+e,3} lifetimes. Same key and live => same external address; new key => valid address unlike every live mapping's; idle > lifetime ends the mapping; inbound never prolongs it. 1:1 mode: paired IP rewritten both ways, port preserved. A scenario requests 16380..16400 mappings (more than the dynamic port range), with and without expiry. Exploration only.",
+    "text": "Generated-input search on the translator itself (in-package shim) with time.Now redirected to a virtual clock: all 9 mapping x filtering behaviours, 3 lifetimes, 1..4 internal endpoints, 1..5 remotes, advances of {0,1/3,2/3,1-e,1,1+e,3} lifetimes. Same key and live => same external address; new key => valid address unlike every live mapping's; idle > lifetime ends the mapping; inbound never prolongs it. 1:1 mode: paired IP rewritten both ways, port preserved. Look-alike address pools (5.6.7.8/5.6.7.80, ports 70/700/7000) and 4-byte/16-byte net.IP forms of one address are part of the domain. A scenario requests 16380..16400 mappings (more than the dynamic port range), with and without expiry. An end-to-end variant drives real routers on the real clock (lifetime 30 ms; outbound, inbound, pauses inside and past the lifetime) and decides reuse, expiry and 'inbound never prolongs' from write/receive timestamps: a datagram is translated between its write and its receipt, so no timing margin enters the verdict. Exploration only.",
     "note": "Trusted: the model (harness/vnat/model.go); an idle time of exactly one lifetime is 'either'; a translation that returns an error hands out nothing and is flagged only when a live mapping exists for the key (the end-to-end regression decides whether the router keeps forwarding).",
     "design_ref": "DESIGN.md §3 C02, Appendix A",
 }
 CLAIMS["C03"] = {
     "technique": "rapid-generated histories with inbound emphasis against the permission model; refused datagrams leave the model untouched so side effects surface later",
     "engine": "vclock",
-    "text": "Same harness as C02 with 55% inbound events to learned, expired, never-allocated and foreign external addresses from contacted, same-IP-other-port and never-contacted remotes: forwarded iff a live mapping owns the address and the remote matches a recorded permission; then to exactly the creator, source and payload unchanged and not aliasing the input. The model ignores refused datagrams, so a permission, refresh or mapping created by one shows up as a later disagreement. 1:1 mode: paired external IP -> paired local IP, unpaired dropped. Exploration only.",
+    "text": "Same harness as C02 with 55% inbound events to learned, expired, never-allocated and foreign external addresses from contacted, same-IP-other-port and never-contacted remotes: forwarded iff a live mapping owns the address and the remote matches a recorded permission; then to exactly the creator, source and payload unchanged and not aliasing the input. The model ignores refused datagrams, so a permission, refresh or mapping created by one shows up as a later disagreement. 1:1 mode: paired external IP -> paired local IP, unpaired dropped. The end-to-end expiry variant of C02 also decides C03 through real routers: permitted remotes are forwarded to the owner while the mapping is certainly live, others refused, everything dropped once it is certainly gone (negative answers through a FIFO marker datagram). Exploration only.",
     "note": "Trusted: the model; 'exactly one lifetime idle' is either.",
     "design_ref": "DESIGN.md §3 C03, Appendix A",
 }
@@ -95,7 +95,7 @@ CLAIMS["C15"] = {
 CLAIMS["C14"] = {
     "technique": "rapid-generated arrival plans against DelayFilter (in-package sink, panic trap) and a MinDelay/MaxJitter router (public API); lower-bound timing, order, exactly-once and liveness oracle",
     "engine": "rapid-models",
-    "text": "Generated-input search on the real clock: delays {0,1us,50us,1ms,5ms,20ms}, 1..4 concurrent senders with bursts and gaps around the delay value through DelayFilter.Run (started by the harness with a recover trap), and MinDelay {0,1ms,10ms} x MaxJitter {0,2ms} routers with 1..3 sending sockets end to end, optionally with a slow pass-through chunk filter (forwarding takes 0.6..1.6 x MinDelay) and a tail of datagrams that fall due while the loop is busy, followed by silence. Oracle: forwarded no sooner than the delay after hand-in (monotonic stamps; noise can only make it more true), each chunk exactly once, unmodified, per-sender order, the loop never panics, everything forwarded within delay + 3 s. A controlled-schedule variant runs Run and the senders as scheduler tasks over the yield-instrumented delay_filter.go/chunk_queue.go (arrival notification vs. timer branch) with the terminal-quiescence rule. Exploration only.",
+    "text": "Generated-input search on the real clock: delays {0,1us,50us,1ms,5ms,20ms}, 1..4 concurrent senders with bursts and gaps around the delay value through DelayFilter.Run (started by the harness with a recover trap), and MinDelay {0,1ms,10ms} x MaxJitter {0,2ms} routers with 1..3 sending sockets end to end, optionally with a slow pass-through chunk filter (forwarding takes 0.6..1.6 x MinDelay) and a tail of datagrams that fall due while the loop is busy, followed by silence. Oracle: forwarded no sooner than the delay after hand-in (monotonic stamps; noise can only make it more true), each chunk exactly once, unmodified, per-sender order, the loop never panics, everything forwarded within delay + 3 s. A nested variant puts two routers with independent MinDelay on one path and checks each hop's lower bound through chunk-filter probes (a hop's delay cannot be paid with time spent in another router). A controlled-schedule variant runs Run and the senders as scheduler tasks over the yield-instrumented delay_filter.go/chunk_queue.go (arrival notification vs. timer branch) with the terminal-quiescence rule. Exploration only.",
     "note": "Real clock: a tree that is early by less than the timer resolution could be missed; a slow machine cannot cause an alarm (lower bound and a 3 s liveness margin backed by a goroutine dump).",
     "design_ref": "DESIGN.md §3 C14",
 }
@@ -142,7 +142,7 @@ CLAIMS["C10"] = {
 CLAIMS["C19"] = {
     "technique": "rapid-generated concurrent client programs executed under the Go race detector (binary built with -race, GORACE=halt_on_error=1)",
     "engine": "race",
-    "text": "Generated client programs: a family of shared objects (Buffer; Deadline; dpipe pair; vnet router/hosts/sockets with ListenUDP, Dial, AddChunkFilter, Stop/Start; TokenBucketFilter and LossFilter under traffic with run-time Set(TBFRate|TBFMaxBurst); udp listener and connections on a real socket; parallel construction of independent networks), 2..6 goroutines with 1..8 drawn operations each, every program run twice for real. Oracle: the race detector; a report names two conflicting accesses unordered by happens-before in that run, independent of adverse timing. The program is printed before it runs; the replay command re-runs the last printed program 50 times. Exploration of the program space, no shrinking.",
+    "text": "Generated client programs: a family of shared objects (Buffer; Deadline; dpipe pair; vnet router/hosts/sockets with ListenUDP, Dial, AddChunkFilter, Stop/Start; TokenBucketFilter and LossFilter under traffic with run-time Set(TBFRate|TBFMaxBurst); udp listener and connections on a real socket; parallel construction of independent networks; a LAN router behind a NAPT with outbound traffic to known and new remotes, inbound traffic to the learned external address, new sockets and mapping expiry), 2..6 goroutines with 1..8 drawn operations each, every program run twice for real. Oracle: the race detector; a report names two conflicting accesses unordered by happens-before in that run, independent of adverse timing. The program is printed before it runs; the replay command re-runs the last printed program 50 times. Exploration of the program space, no shrinking.",
     "note": "Sees only races between accesses a generated program performs; API combinations outside the catalogue and instruction-level races the detector does not instrument (assembly) are not covered.",
     "design_ref": "DESIGN.md §3 C19",
 }
